@@ -20,6 +20,7 @@ CONSTANTS MaxC,       \* containers ever created
           Wraps,      \* wrapper levels for children, e.g. {0, 1}
           Kinds,      \* kinds of child containers: "A" array, "M" map, "C" map with a composite type (compact encoding when inlined)
           Types,      \* type infos SetType may install (>= 100: composite types, which use the compact encoding when inlined)
+          Crashes,    \* with Persist: also abandon the storage and reopen (reverting to the last commit)
           Rejects,    \* also issue requests that must be rejected (out-of-range index, absent key)
           Persist, EmitDepth,
           RareOff     \* TRUE in exhaustive (breadth-first) configurations: every event is enabled in every state
@@ -147,7 +148,7 @@ Pop(h) == /\ Len(cont[h].el) > 0
 RootHandles == {v \in 1..MaxC : Exists(v) /\ cont[v].par = 0}
 Commit(m, w) == Persist /\ committed' = cont /\ hasc' = TRUE /\ UNCHANGED <<cont, live, nextVid, nextId>> /\ H(<<"commit", m, w, 0>>)
 Drop == Persist /\ hasc /\ committed = cont /\ live' = RootHandles /\ UNCHANGED <<cont, nextVid, nextId, committed, hasc>> /\ H(<<"dropcache">>)
-Crash == /\ Persist /\ hasc /\ cont' = committed
+Crash == /\ Persist /\ Crashes /\ hasc /\ cont' = committed
          /\ live' = {v \in 1..MaxC : committed[v].kind # "none" /\ committed[v].par = 0}
          /\ UNCHANGED <<nextVid, nextId, committed, hasc>> /\ H(<<"crash">>)
 
